@@ -60,6 +60,7 @@ type Solver struct {
 	shadow    *Solver // second solver mirrored for cross-checking assertion verdicts
 	dom       *byteDom // small-domain shortcut for single-byte queries (bytedom.go)
 	preHook   func()   // run before every Assert/Check (model_zz_grpa_scaled.go)
+	tactic    string   // option solver_bv_tactic: try (check-sat-using …) first (solver_tactic.go)
 }
 
 func newSolver(bin string, timeoutMs int, logPath string) (*Solver, error) {
@@ -296,9 +297,14 @@ func (s *Solver) Check(extra *Term, wantModel bool) (string, *Model) {
 	if extra != nil && extra.op != "true" {
 		s.send("(assert " + extra.ref() + ")")
 	}
-	s.send("(check-sat)")
 	res := ""
-	for {
+	if s.tactic != "" {
+		res = s.checkWithTactic() // solver_tactic.go; "" = no verdict, fall back
+	}
+	if res == "" {
+		s.send("(check-sat)")
+	}
+	for res == "" || res == "error" {
 		line, err := s.readLine()
 		if err != nil {
 			s.stats.Errors++
